@@ -188,4 +188,12 @@ theorem esccpy_none (tz : Nat) (src : List Byte) (htz : 0 < tz) (h : tz ≤ (une
   unfold esccpy
   rw [go_none tz (src.length + 1) src [] (by omega) (by simpa using htz) (by simpa using h)]
 
+/-- the grown stash: with room for one byte more than it reads `esccpy` never gives up (it appends no more
+than it reads), and what it yields does not depend on how much more room there is -/
+theorem esccpy_fits (src : List Byte) (k : Nat) : esccpy (src.length + 1 + k) src = (some (unesc src), 0) :=
+  esccpy_eq _ _ (by have := unesc_length src; omega)
+
+theorem esccpy_fits' (src : List Byte) : (esccpy (src.length + 1) src).1 = some (unesc src) := by
+  rw [esccpy_fits src 0]
+
 end Echse.Ical
